@@ -242,6 +242,22 @@ func driveHD(rc *RunCtx) {
 	model := &xpub{Version: version, Depth: 0, ParentFP: []byte{0, 0, 0, 0}, Index: 0, Chain: randBytes(32), K: parentPt}
 	lib := &ckd.ExtendedKey{PublicKey: ecdsa.PublicKey{Curve: tss.S256(), X: parentPt.X, Y: parentPt.Y}, Depth: 0, ChildIndex: 0,
 		ChainCode: append([]byte{}, model.Chain...), ParentFP: []byte{0, 0, 0, 0}, Version: version}
+	if sc.Run%2 == 1 {
+		// every second history gets its parent the way an application that stores xpub strings does:
+		// parsed from the serialised form (here the reference model's serialisation)
+		parsed, err := ckd.NewExtendedKeyFromString(model.String(), tss.S256())
+		if err != nil {
+			rc.Fail("serialisation-mismatch", "the library refuses the BIP32 serialisation of the parent key: %v", err)
+			return
+		}
+		if parsed.PublicKey.X.Cmp(parentPt.X) != 0 || parsed.PublicKey.Y.Cmp(parentPt.Y) != 0 || !bytes.Equal(parsed.ChainCode, model.Chain) || parsed.Depth != 0 {
+			rc.Fail("serialisation-mismatch", "the parent parsed from its BIP32 serialisation differs from the key that was serialised")
+			return
+		}
+		lib = parsed
+		rc.Res.Probes["parent_parsed_from_string"]++
+	}
+	parentString := lib.String()
 	var hist []string
 	signs := sc.Int("signs", 0)
 	idxPool := []uint32{0, 1, 2, 1<<31 - 1, 44, 60, 1 << 30}
@@ -345,6 +361,12 @@ func driveHD(rc *RunCtx) {
 			}
 		}
 		rc.Res.Probes["derivations_checked"]++
+		// the parent object is used again in the next step: deriving from it and serialising its
+		// descendants must not have changed it
+		if !bytes.Equal(lib.ChainCode, model.Chain) || !bytes.Equal(lib.ParentFP, model.ParentFP) || lib.String() != parentString {
+			rc.Fail("parent-key-modified", "after deriving %v and serialising the result, the parent extended key object differs from what it was (chain code %x, fingerprint %x)", path, lib.ChainCode, lib.ParentFP)
+			return
+		}
 		// sign with the offset under the derived child key
 		if signs > 0 && PtEq(start.K, pub) && kind != "depth255" {
 			signs--
